@@ -298,3 +298,19 @@ Proof. unfold readb_take5. cbn [fst snd]. split; [apply firstn_skipn|apply first
 Theorem throttle_cancel_safe5 l : lstep5 l TakeCancelled5 = Stepped5 l /\
   forall l', lstep5 l TakeCancelled5 = Stepped5 l' -> pending5 l' = pending5 l /\ chan5 l' = chan5 l /\ st5 l' = st5 l.
 Proof. split; [reflexivity|]. intros l' H. inversion H. subst. auto. Qed.
+
+(** clean() hands back slots ABOVE the negotiated limit too ([clean5_returns_held] quantifies over
+    every state; [Inv5] only bounds ids by the configured limit): ids 1..3 in flight, 1 and 2
+    acknowledged, failure, the resumed session lowers receive-maximum to 2, id 3 is retransmitted,
+    second failure: the publish with id 3 (> s5_max = 2) is pending again *)
+Definition above_limit5_history : list lop5 :=
+  [Reconnect5 true None None; Yield5; UserSend5 (pq1_5 1); UserSend5 (pq1_5 2); UserSend5 (pq1_5 3);
+   TakeRequest5; Yield5; TakeRequest5; Yield5; TakeRequest5; Yield5; Net5 [P5PubAck 1 0; P5PubAck 2 0]; Yield5; Yield5;
+   Fail5; Reconnect5 true (Some 2) None; Yield5; TakeRequest5; Yield5].
+
+Example clean_above_negotiated_limit5 :
+  option_map (fun l => (s5_max (st5 l), held5 (st5 l))) (lrun5 (linit5 3 false) above_limit5_history)
+  = Some (2, [R5Publish (mkPub5 Q1 3 3 3 None)]) /\
+  option_map (fun l => (pending5 l, held5 (st5 l), connected5 l)) (lrun5 (linit5 3 false) (above_limit5_history ++ [Fail5]))
+  = Some ([R5Publish (mkPub5 Q1 3 3 3 None)], [], false).
+Proof. vm_compute. repeat split. Qed.
